@@ -14,6 +14,7 @@ SPEC = {
             floors={'payment': 0.8, 'bump-default': 0.15, 'bump-explicit-rate': 0.1, 'bump-new-outputs': 0.08, 'bump-reduce-change': 0.1, 'refused-confirmed': 0.05,
                     'refused-already-bumped': 0.05, 'refused-has-descendants': 0.03, 'mixed-payment': 0.1},
             rule='wallet payments + bumps; non-trivial = >=1 accepted replacement and >=1 refusal of a confirmed / already bumped / has-descendants original'),
+        gen('vh_c56', 'c56_bump_literal', 0, 0, tiers=(), rule='replay-only: known finding (bump with caller-supplied outputs that drop a payment pays less than the original)'),
     ],
 }
 
